@@ -87,21 +87,6 @@ def _m_dump_recursion(case, observed, finding):
     return w == 'dumpnv' or observed.get('validate') == 'ok'
 
 
-def _m_pieces_repr(case, observed, finding):
-    """D08i: RecursionError out of validate() (inside read_stream, or called on the returned torrent,
-    or through dump()) and the un-decoded 'pieces' is nested at least 500 deep"""
-    w = case.get('which')
-    if not isinstance(observed, dict) or case.get('pieces_depth', 0) < 500:
-        return False
-    if observed.get(w) != 'internal:RecursionError':
-        return False
-    if w == 'read':
-        return case.get('validate') is True
-    if w == 'validate':
-        return True
-    return w == 'dump' and observed.get('validate') == 'internal:RecursionError'
-
-
 def _m_quadratic_trackers(case, observed, finding):
     """D08h: super-linear time of from_string in the number of distinct tr/ws values"""
     return case.get('family') in ('magnet/distinct-tr', 'magnet/distinct-ws') and case.get('what') == 'scaling'
@@ -109,7 +94,6 @@ def _m_quadratic_trackers(case, observed, finding):
 
 MATCHERS = {'memory_error_huge_prefix': _m_memory,
             'dump_recursion_deep': _m_dump_recursion,
-            'pieces_repr_recursion': _m_pieces_repr,
             'quadratic_distinct_trackers': _m_quadratic_trackers}
 
 
@@ -472,7 +456,9 @@ def evaluate_read(ctx, drv, cases):
         case['maxprefix'] = _maxprefix(x)
         case['env'] = {'decFuel': o['decFuel'], 'encFuel': o['encFuel'], 'mem': o['mem']}
         case['pieces_depth'] = o['pieces_depth']
-        deep_pieces = o['pieces_depth'] >= 500
+        if o['pieces_depth'] >= 500:
+            # regression family of the repaired finding D08i (/repo 3420ff7): compared like every other case
+            ctx.dist['deep-pieces(ex-D08i)' + ('/validate' if c['validate'] else '')] += 1
         I = {k: o[k] for k in ('read', 'validate', 'dump', 'dumpnv') if k in o}
         inside = c['how'] not in ('bytes', 'bytearray') or len(x) <= 10 ** 7
         model = m['model'] if m else None
@@ -517,16 +503,6 @@ def evaluate_read(ctx, drv, cases):
                                 '(contradicts C08_read_total)', case)
         if gray:
             ctx.dist['gray-zone-memory'] += 1
-            continue
-        if deep_pieces:
-            # repr() of the un-decoded 'pieces' inside validate() recurses in C: outside the frame model
-            ctx.dist['deep-pieces-not-compared'] += 1
-            if c['validate'] or model['read'] != I['read']:
-                if not c['validate']:
-                    ctx.corr_break('c08.read', case, model, I)
-                continue
-            if hyps.get('encOrder') and model['dumpnv'] != I['dumpnv']:
-                ctx.corr_break('c08.read/dumpnv', case, model, I)
             continue
         if not hyp and inside:
             ctx.dist['outside-hyp'] += 1
@@ -907,6 +883,12 @@ def build_read_cases(ctx):
     for c in ugen.regression_19d011f():
         for V in (True, False):
             cases.append(dict(c, validate=V, how='bytes'))
+    for c in ugen.regression_3420ff7():
+        for V in (True, False):
+            cases.append(dict(c, validate=V, how='bytes'))
+        if c['depth'] in (1500, 5000):
+            cases.append(dict(c, validate=True, how='file'))
+            cases.append(dict(c, validate=True, how='stream'))
     cases += _expand(r, ugen.exhaustive_small(6 if ctx.thorough else 4), hows=False)
     # truncation at every offset of a few seed torrents
     from harness.gen import metainfo as gen
